@@ -14,7 +14,10 @@ import (
 	"strconv"
 	"strings"
 	"sync"
+	"sync/atomic"
 	"time"
+
+	sdk "github.com/conduitio/conduit-processor-sdk"
 
 	"github.com/conduitio/conduit-commons/opencdc"
 	"github.com/conduitio/conduit/pkg/connector"
@@ -191,6 +194,10 @@ type rcase struct {
 	Recs    [][2]bool  `json:"recs,omitempty"`    // r1: (rejected, dlq write fails) in source order
 	Batches [][][2]bool `json:"batches,omitempty"` // r2: the same, cut into source batches
 	Order   []int      `json:"order,omitempty"`   // r1: order in which Ack()/Nack() are called
+	// NilReason: rejections come from a processor that returns sdk.ErrorRecord{Error: nil}
+	// (v1: msg.Nack(nil, node) exactly as ProcessorNode does; v2: a ProcessorTask in front
+	// of the destination)
+	NilReason bool `json:"nil_reason,omitempty"`
 }
 
 type revent struct {
@@ -202,6 +209,7 @@ type robs struct {
 	Events  []revent `json:"events"`
 	Stopped bool     `json:"stopped"`
 	Fatal   bool     `json:"fatal"`
+	Panic   bool     `json:"panic,omitempty"`
 	Aux     string   `json:"aux,omitempty"`
 }
 
@@ -305,6 +313,7 @@ func runR1(c rcase) robs {
 	// blocks until all earlier tickets were released)
 	errs := make([]error, len(msgs))
 	var wg sync.WaitGroup
+	var panicked atomic.Bool
 	order := c.Order
 	if len(order) != len(msgs) {
 		order = make([]int, len(msgs))
@@ -321,8 +330,18 @@ func runR1(c rcase) robs {
 		go func(i int) {
 			defer wg.Done()
 			close(started)
+			defer func() {
+				if r := recover(); r != nil {
+					panicked.Store(true)
+					errs[i] = cerrors.Errorf("panic: %v", r)
+				}
+			}()
 			if c.Recs[i][0] {
-				errs[i] = msgs[i].Nack(cerrors.New("rejected"), "dest")
+				var reason error = cerrors.New("rejected")
+				if c.NilReason {
+					reason = nil
+				}
+				errs[i] = msgs[i].Nack(reason, "dest")
 			} else {
 				errs[i] = msgs[i].Ack()
 			}
@@ -333,6 +352,11 @@ func runR1(c rcase) robs {
 	wg.Wait()
 	close(in)
 	var o robs
+	o.Panic = panicked.Load()
+	if o.Panic {
+		// a panicking handler never releases its ticket: do not wait for the nodes
+		cancel()
+	}
 	select {
 	case <-ackerDone:
 	case <-ctx.Done():
@@ -415,6 +439,30 @@ func (d *r2Dest) Ack(context.Context) ([]connector.DestinationAck, error) {
 	return out, nil
 }
 
+// r2Proc rejects records per script with an ErrorRecord (nil Error when asked to)
+type r2Proc struct {
+	bad map[int]bool
+	nil bool
+}
+
+func (p *r2Proc) Open(context.Context) error     { return nil }
+func (p *r2Proc) Teardown(context.Context) error { return nil }
+func (p *r2Proc) Process(_ context.Context, rs []opencdc.Record) []sdk.ProcessedRecord {
+	out := make([]sdk.ProcessedRecord, len(rs))
+	for i, r := range rs {
+		if p.bad[posIdx(r.Position)] {
+			if p.nil {
+				out[i] = sdk.ErrorRecord{Error: nil}
+			} else {
+				out[i] = sdk.ErrorRecord{Error: cerrors.New("rejected")}
+			}
+		} else {
+			out[i] = sdk.SingleRecord(r)
+		}
+	}
+	return out
+}
+
 func runR2(c rcase) robs {
 	ctx, cancel := context.WithTimeout(context.Background(), 30*time.Second)
 	defer cancel()
@@ -443,18 +491,35 @@ func runR2(c rcase) robs {
 	dlq := funnel.NewDLQ("dlq", dlqd, lgr, funnel.NoOpConnectorMetrics{}, c.Size, c.Thr)
 	destNode := &funnel.TaskNode{Task: funnel.NewDestinationTask("dest", dest, lgr, funnel.NoOpConnectorMetrics{})}
 	srcNode := &funnel.TaskNode{Task: funnel.NewSourceTask("src", src, lgr, funnel.NoOpConnectorMetrics{}), Next: []*funnel.TaskNode{destNode}}
+	if c.NilReason {
+		// rejections come from a processor instead of the destination
+		proc := &r2Proc{bad: dest.bad, nil: true}
+		dest.bad = map[int]bool{}
+		procNode := &funnel.TaskNode{Task: funnel.NewProcessorTask("proc", proc, lgr, funnel.NoOpProcessorMetrics{}), Next: []*funnel.TaskNode{destNode}}
+		srcNode.Next = []*funnel.TaskNode{procNode}
+	}
 	w, err := funnel.NewWorker(srcNode, dlq, lgr, noop.Timer{})
 	if err != nil {
 		return robs{Aux: "NewWorker: " + err.Error()}
 	}
 	done := make(chan error, 1)
-	go func() { done <- w.Do(ctx) }()
+	var panicked atomic.Bool
+	go func() {
+		defer func() {
+			if r := recover(); r != nil {
+				panicked.Store(true)
+				done <- cerrors.Errorf("panic: %v", r)
+			}
+		}()
+		done <- w.Do(ctx)
+	}()
 	var o robs
 	select {
 	case err = <-done:
 	case <-ctx.Done():
 		return robs{Aux: "worker hung"}
 	}
+	o.Panic = panicked.Load()
 	if !errors.Is(err, errScriptDone) {
 		o.Stopped = true
 		o.Fatal = cerrors.IsFatalError(err)
@@ -491,7 +556,7 @@ func emitR(w *hx.Writer, c rcase) {
 	var term string
 	if c.Engine == "r1" {
 		o = runR1(c)
-		term = fmt.Sprintf("R1 %d %d %s %s %s %s", c.Size, c.Thr, coqRecs(c.Recs), coqEvents(o.Events), hx.Bool(o.Stopped), hx.Bool(o.Fatal))
+		term = fmt.Sprintf("R1 %d %d %s %s %s %s %s", c.Size, c.Thr, coqRecs(c.Recs), coqEvents(o.Events), hx.Bool(o.Stopped), hx.Bool(o.Fatal), hx.Bool(o.Panic))
 	} else {
 		o = runR2(c)
 		bs := make([]string, 0, len(c.Batches))
@@ -500,7 +565,7 @@ func emitR(w *hx.Writer, c rcase) {
 				bs = append(bs, coqRecs(b))
 			}
 		}
-		term = fmt.Sprintf("R2 %d %d %s %s %s %s", c.Size, c.Thr, hx.List(bs), coqEvents(o.Events), hx.Bool(o.Stopped), hx.Bool(o.Fatal))
+		term = fmt.Sprintf("R2 %d %d %s %s %s %s %s", c.Size, c.Thr, hx.List(bs), coqEvents(o.Events), hx.Bool(o.Stopped), hx.Bool(o.Fatal), hx.Bool(o.Panic))
 	}
 	w.Add(map[string]any{"input": c, "observed": o}, term)
 }
@@ -525,6 +590,12 @@ func genRouting(r *hx.Rand) rcase {
 		thr = r.Range(0, size-1)
 	}
 	rs := genRecs(r, 30)
+	nilReason := r.Chance(1, 8)
+	if nilReason {
+		for i := range rs { // keep these about the nil reason only
+			rs[i][1] = false
+		}
+	}
 	if r.Bool() {
 		order := make([]int, len(rs))
 		for i := range order {
@@ -536,7 +607,7 @@ func genRouting(r *hx.Rand) rcase {
 				order[i], order[j] = order[j], order[i]
 			}
 		}
-		return rcase{Engine: "r1", Size: size, Thr: thr, Recs: rs, Order: order}
+		return rcase{Engine: "r1", Size: size, Thr: thr, Recs: rs, Order: order, NilReason: nilReason}
 	}
 	var bs [][][2]bool
 	for i := 0; i < len(rs); {
@@ -547,7 +618,7 @@ func genRouting(r *hx.Rand) rcase {
 		bs = append(bs, rs[i:i+n])
 		i += n
 	}
-	return rcase{Engine: "r2", Size: size, Thr: thr, Batches: bs}
+	return rcase{Engine: "r2", Size: size, Thr: thr, Batches: bs, NilReason: nilReason}
 }
 
 // ---------- generation ----------
@@ -746,6 +817,9 @@ func rcaseFromJSON(in map[string]any) rcase {
 		for _, b := range bs {
 			c.Batches = append(c.Batches, pairs(b))
 		}
+	}
+	if b, ok := in["nil_reason"].(bool); ok {
+		c.NilReason = b
 	}
 	if os, ok := in["order"].([]any); ok {
 		for _, x := range os {
